@@ -141,6 +141,13 @@ pub fn profile(prop: &str, faulting: bool) -> (Faults, Vec<(OpFamily, u32)>, boo
             }
         }
     }
+    if !heap::HOOKED {
+        // without the allocator seam (mirisim) nothing refuses a giant request deterministically:
+        // never ask the real allocator for gigabytes, and do not plan failures that cannot fire
+        f.giant_size = false;
+        f.lying_hint = false;
+        f.alloc_fail_pm = 0;
+    }
     (f, focus, deep)
 }
 
